@@ -33,7 +33,7 @@ type tcase struct {
 }
 
 func Run(c *core.Ctx) {
-	c.Rule = "templ.URL inputs: every string over the 24-symbol adversarial alphabet up to the tier's length, XSS vectors and their mutations, random byte strings; distinct non-trivial = distinct inputs containing ':' (the sanitiser's only branch point); generator dispatch: every letter-case variant of a/href and form/action plus non-matching pairs; rendered href/action (end to end): every sequence up to the tier's length over 28 symbols (plain bytes and complete / unterminated / unknown / double-escaped character references), the vectors, and scheme-shaped strings whose code points are rewritten at random as named / legacy / decimal / hexadecimal / padded / unterminated references with whitespace references sprinkled in, through the URL-sink templates in rotation (vectors through all), plus a stride sample of the sanitiser's inputs; distinct non-trivial there = distinct (template, input) with '&' in the input"
+	c.Rule = "templ.URL inputs: every string over the 24-symbol adversarial alphabet up to the tier's length, XSS vectors and their mutations, random byte strings; distinct non-trivial = distinct inputs containing ':' (the sanitiser's only branch point); generator dispatch: every letter-case variant of a/href and form/action plus non-matching pairs; position of the attribute in the attribute tree of its element: every path of then / else branches of conditional attributes to depth 3 (thorough: 5) x 10 surroundings (alone, before / after a spread, an expression attribute, a sibling conditional, between a constant and a boolean expression attribute, the same attribute in the opposite branch) x the base spellings and four pairs that are no URL sink, then every letter-case variant of a/href and form/action at positions in rotation and at one drawn position with drawn wrappers, then drawn (spelling, path, surroundings, wrappers); distinct non-trivial = distinct templates; a sample (every path x a/form, plus drawn ones) is given to the Go compiler with plain string parameters and compiled + rendered with SafeURL parameters on the vectors; rendered href/action (end to end): every sequence up to the tier's length over 28 symbols (plain bytes and complete / unterminated / unknown / double-escaped character references), the vectors, and scheme-shaped strings whose code points are rewritten at random as named / legacy / decimal / hexadecimal / padded / unterminated references with whitespace references sprinkled in, through the URL-sink templates in rotation (vectors through all), plus a stride sample of the sanitiser's inputs; distinct non-trivial there = distinct (template, input) with '&' in the input"
 	c.Trusted = append(c.Trusted, "specification spec/Whatwg.v (WHATWG scheme extraction; compared with node's URL parser in the thorough tier)",
 		"extraction: ExtrOcamlBasic only; ocaml/driver.ml (hex line protocol, byte<->int by constructor index, asserted at start-up)",
 		"Go harness internal/c04 and the Go toolchain")
@@ -173,6 +173,7 @@ func Run(c *core.Ctx) {
 	c.Sample(map[string]string{"input": cases[nExh/2], "impl": outs[nExh/2]})
 
 	dispatch(c)
+	positions(c)
 	rendered(c, cases, nExh)
 	if !c.Quick() {
 		nodeOracle(c, cases)
